@@ -2,9 +2,11 @@ package scen
 
 import (
 	"bytes"
+	"errors"
 	"fmt"
 	"strings"
 
+	json "github.com/go-json-experiment/json"
 	"github.com/go-json-experiment/json/jsontext"
 	jsonv1 "github.com/go-json-experiment/json/v1"
 
@@ -32,8 +34,8 @@ var v1Strings = []string{"", " ", "\t", "  ", "ab", "x", ">>", "\n", " \t x", "Ã
 func (sc *V1Misc) Run(t *core.Tape, env *Env) (any, []core.Violation) {
 	s := t.S("plan")
 	p := &V1MiscPlan{}
-	p.Op = []string{"Indent", "Indent", "Indent", "Compact", "HTMLEscape", "Valid", "MarshalIndent", "Encoder.SetIndent", "Unmarshal-syntactic-error-from-user-code", "Unmarshal-legacy-user-error-then-continue", "Unmarshal-legacy-user-error-then-continue"}[s.Draw(11)]
-	src := gen.Text(s, gen.JSONCfg{MaxBytes: 16 + s.Draw(300), MaxDepth: 1 + s.Draw(4), DupNames: true, InvalidUTF8: s.Chance(1, 6)})
+	p.Op = []string{"Indent", "Indent", "Indent", "Compact", "HTMLEscape", "Valid", "MarshalIndent", "Encoder.SetIndent", "Unmarshal-syntactic-error-from-user-code", "Unmarshal-legacy-user-error-then-continue", "Unmarshal-legacy-user-error-then-continue", "HTMLEscape", "Unmarshal-odd-interface-map-key", "Value-methods"}[s.Draw(14)]
+	src := gen.Text(s, gen.JSONCfg{MaxBytes: 16 + s.Draw(300), MaxDepth: 1 + s.Draw(4), DupNames: true, InvalidUTF8: s.Chance(1, 4), CollideNames: s.Chance(1, 3)})
 	if s.Chance(1, 3) {
 		src = gen.Mutate(s, src)
 	}
@@ -45,6 +47,12 @@ func (sc *V1Misc) Run(t *core.Tape, env *Env) (any, []core.Violation) {
 		for i, n := 0, s.Draw(6); i < n; i++ {
 			src = append(src, ' ')
 		}
+	}
+	if s.Chance(1, 4) {
+		// texts that end (or are cut) inside a multi-byte character, in particular
+		// inside the U+2028/U+2029 sequences that the escapers look ahead for
+		tails := []string{"\xe2", "\xe2\x80", "\xe2\x80\xa8", "\"\xe2\x80", "\xf0\x90", "\xc3", "<\xe2", "&\xe2\x80"}
+		src = append(src, tails[s.Draw(len(tails))]...)
 	}
 	p.Src = string(src)
 	p.Prefix = v1Strings[s.Draw(len(v1Strings))]
@@ -110,6 +118,51 @@ func (sc *V1Misc) Run(t *core.Tape, env *Env) (any, []core.Violation) {
 				var x [2]peers.U200
 				jsonv1.Unmarshal([]byte(`[`+val+`,`+val+`,`+val+`]`), &x)
 			}
+			return nil
+		case "Unmarshal-odd-interface-map-key":
+			// a map keyed by an interface type: user code decides what the key is;
+			// whatever it stores, the library must answer with a value or an error
+			keys := []any{[]int{1}, map[string]int{"a": 1}, struct{ S []int }{[]int{1}}, [1][]int{{1}}, struct{ F any }{[]int{1}}, [2]any{1, map[string]int{}}, 1.5, "s", nil, struct{ P *int }{new(int)}, [1]func(){nil}}
+			key := keys[s.Draw(len(keys))]
+			fn := json.WithUnmarshalers(json.UnmarshalFromFunc(func(dec *jsontext.Decoder, k *any) error {
+				if dec.StackDepth() == 0 {
+					return errors.ErrUnsupported
+				}
+				if k, n := dec.StackIndex(dec.StackDepth()); k != '{' || n%2 != 0 {
+					return errors.ErrUnsupported // only member names
+				}
+				if _, err := dec.ReadToken(); err != nil {
+					return err
+				}
+				*k = key
+				return nil
+			}))
+			var m map[any]int
+			e := json.Unmarshal([]byte(`{"a":1,"b":2,"a2":3}`), &m, fn)
+			var m2 map[any]any
+			json.Unmarshal([]byte(`{"a":1,"b":{"c":2}}`), &m2, fn, jsontext.AllowDuplicateNames(true))
+			_ = e
+			return nil
+		case "Value-methods":
+			v := jsontext.Value(append([]byte(nil), src...))
+			opts := []jsontext.Options{jsontext.AllowInvalidUTF8(s.Bool()), jsontext.AllowDuplicateNames(s.Bool())}
+			if s.Bool() {
+				opts = append(opts, jsontext.PreserveRawStrings(s.Bool()), jsontext.ReorderRawObjects(s.Bool()), jsontext.CanonicalizeRawInts(s.Bool()), jsontext.CanonicalizeRawFloats(s.Bool()))
+			}
+			switch s.Draw(5) {
+			case 0:
+				v.Format(opts...)
+			case 1:
+				v.Canonicalize(opts...)
+			case 2:
+				v.Compact(opts...)
+			case 3:
+				v.Indent(opts...)
+			default:
+				jsontext.AppendFormat(nil, v, opts...)
+			}
+			v.IsValid(opts...)
+			v.Kind()
 			return nil
 		case "Unmarshal-syntactic-error-from-user-code":
 			// user code may return any error value, also a bare SyntacticError
